@@ -367,6 +367,24 @@ def run(world, rep, tier, only=None):
            not hits, "%d `&` operations examined; zero-extended ~mask applied to a 64-bit offset/size/block: %s" %
            (n_and, [(f.file, f.name, l, t[:50]) for f, l, z, t in hits]))
 
+    expand_keeps_size(prog, rep, "C09.s")
+
+
+def expand_keeps_size(prog, rep, RULE):
+    """changing the storage form of a regular file (inline area -> blocks) does not touch its length: the routine that
+    expands an inline *file* never stores into i_size (the directory twin legitimately sets one block's worth)"""
+    f = prog.fn("ext2fs_inline_data_file_expand", "lib/ext2fs/inline_data.c")
+    st = [n for n in f.events("S") if T.last_field(n.ev["lhs"]) and T.last_field(n.ev["lhs"])[1] in ("i_size", "i_size_high")]
+    wr = calls_to(f, "ext2fs_file_write")
+    rep.floor(RULE + " data write in ext2fs_inline_data_file_expand", len(wr), 1)
+    rep.ob(RULE, site(f, "expanding an inline file keeps i_size"), not st,
+           "no store into i_size/i_size_high: %s" % [(n.line, n.text()[:30]) for n in st])
+    for i, w_ in enumerate(wr):
+        lim = any(t is not None and "i_size" in T.field_names(a) for t, a in control_lits(f, w_)) or \
+            any("i_size" in T.field_names(n.ev.get("rhs") or {}) for n in f.events("S") if T.path(n.ev["lhs"]) == T.path(arg(w_, 2)))
+        rep.ob(RULE, site(f, "only the part of the inline area below i_size is written as data#%d" % i), lim,
+               "the byte count handed to ext2fs_file_write is limited by the inode's size")
+
 
 def search_mark_rule(prog, rep, RULE, only_files=None, floor=7):
     """a block found by the free-block search routines and then used is (a) marked in use on every path on which
